@@ -177,6 +177,7 @@ func (t *HyperTree) RebuildCache() {
 	indexes := make([][]byte, 0)
 
 	tileReader := t.store.GetAll(storage.HyperCacheTable)
+	defer tileReader.Close()
 	tiles := make([]*storage.KVPair, 1000)
 	for {
 		n, err := tileReader.Read(tiles)
